@@ -401,7 +401,7 @@ func (session *HermesSession) Run(workingDir string, args []string, logID string
 						g.PORGES[idxLayer] = g.PORGES_Backup[idxLayer]
 						g.WNOR[idxLayer] = g.WNOR_Backup[idxLayer]
 					}
-					calcWRed(g.WMIN[0], g.W[0], &g)
+					calcWRed(g.WMIN[0]*100, g.W[0]*100, &g)
 				}
 				setFieldCapacityWithGW(&g)
 				// set water content in the sub ground water zone to maximum Field Capacity
